@@ -133,6 +133,57 @@ def set_global_events(ev):
     _mon.set_events(TOOL, ev)
 
 
+# ----------------------------------------------------------------------------- bodies of modules under construction
+#
+# Grammar() executes the generated module: top-level code that fills the context object, imports from the
+# parent module, sets flags.  These code objects do not exist before the construction, so they are caught
+# as they start (a global PY_START under a second tool id; every other code location disables itself on its
+# first event) and get LINE events from then on: the simulator can pre-empt a construction INSIDE the body
+# of the module it is building.
+
+TOOL2 = 4
+_bodies_on = False
+_STORE_OPS = frozenset(['STORE_ATTR', 'STORE_SUBSCR', 'DELETE_ATTR', 'DELETE_SUBSCR', 'IMPORT_FROM', 'IMPORT_NAME'])
+
+
+def _is_generated_body(code):
+    fn = code.co_filename
+    return code.co_name == '<module>' and fn.startswith('<') and fn.endswith('>') and not fn.startswith('<frozen') \
+        and fn not in ('<string>', '<stdin>')
+
+
+def _on_any_start(code, off):
+    if not _is_generated_body(code):
+        return _mon.DISABLE
+    sim = _SIM
+    if sim is None:
+        return None
+    _mon.set_local_events(TOOL, code, _mon.get_local_events(TOOL, code) | E.LINE)
+    # lines of the body that store into objects or import from other modules are shared-state lines
+    import dis
+    line = code.co_firstlineno
+    for ins in dis.get_instructions(code):
+        if ins.starts_line is not None:
+            line = ins.starts_line
+        if ins.opname in _STORE_OPS:
+            sim.hot.add((code, line))
+    sim.body_codes += 1
+    return None
+
+
+def watch_module_bodies(on):
+    global _bodies_on
+    if on and not _bodies_on:
+        if _mon.get_tool(TOOL2) is None:
+            _mon.use_tool_id(TOOL2, 'simkit-bodies')
+        _mon.register_callback(TOOL2, E.PY_START, _on_any_start)
+        _mon.set_events(TOOL2, E.PY_START)
+        _bodies_on = True
+    elif not on and _bodies_on:
+        _mon.set_events(TOOL2, 0)
+        _bodies_on = False
+
+
 # ----------------------------------------------------------------------------- shared-state lines
 
 _MUTATORS = frozenset(['setdefault', 'append', 'extend', 'insert', 'pop', 'popitem', 'clear', 'update', 'add',
@@ -334,6 +385,7 @@ class Sim:
         self.ipoints = {}       # code -> {instruction offset: line}: pre-emption points inside shared-state lines
         self.ipoint_hits = 0
         self.ipoint_codes = []
+        self.body_codes = 0     # bodies of modules under construction that were put under LINE events
         self._main = threading.Semaphore(0)
         self.failed = None
 
